@@ -316,9 +316,36 @@ func verifH_c03_hctr() {
 	verifReach("end")
 }
 
-// The table-driven (*hctr).mul equals bit-by-bit multiplication in GF(2^128) for every hash key and
-// every operand (justifies the gfmul abstraction used by verifH_c03_hctr).
+// GF(2^128) product y*h by Horner evaluation of the defining sum  y*h = sum_i y_i x^i h  (GCM bit order:
+// coefficient i is bit 7-(i%8) of byte i/8), from the highest coefficient down: z = z*x + y_i*h.
+func c03GfMulHorner(h, y []byte) []byte {
+	hl, hh := c03BE64(h[:8]), c03BE64(h[8:])
+	yl, yh := c03BE64(y[:8]), c03BE64(y[8:])
+	var zl, zh uint64
+	for i := 127; i >= 0; i-- {
+		// z = z * x
+		lsb := zh & 1
+		zh = zh>>1 | zl<<63
+		zl = zl>>1 ^ (0xe100000000000000 & -lsb)
+		// z += y_i * h
+		var bit uint64
+		if i < 64 {
+			bit = (yl >> (63 - uint(i))) & 1
+		} else {
+			bit = (yh >> (127 - uint(i))) & 1
+		}
+		zl ^= hl & -bit
+		zh ^= hh & -bit
+	}
+	return c03FE2Bytes(&hctrFieldElement{zl, zh})
+}
+
+// The table-driven (*hctr).mul equals multiplication in GF(2^128) for every hash key and every operand
+// (chained lemmas relate the accumulator after each nibble with four Horner steps); this justifies the
+// gfmul abstraction used by verifH_c03_hctr.  Natively the Horner form is also compared with SP 800-38D
+// algorithm 1 (c03GfMulBits).
 func verifH_c03_hctr_mul() {
+	verifWordLevel(true)
 	hkey := verifBytes("hkey", 16)
 	yb := verifBytes("y", 16)
 	tw := make([]byte, 16)
@@ -326,6 +353,10 @@ func verifH_c03_hctr_mul() {
 	h := m.(*hctr)
 	y := hctrFieldElement{c03BE64(yb[:8]), c03BE64(yb[8:])}
 	h.mul(&y)
-	verifAssert(verifEqBytes(c03FE2Bytes(&y), c03GfMulBits(hkey, yb)), "hctr.mul is GF(2^128) multiplication by the hash key")
+	want := c03GfMulHorner(hkey, yb)
+	if !verifSymbolic() {
+		verifAssert(verifEqBytes(want, c03GfMulBits(yb, hkey)), "Horner form equals SP 800-38D algorithm 1")
+	}
+	verifAssertEqSweep(c03FE2Bytes(&y), want, "hctr.mul is GF(2^128) multiplication by the hash key")
 	verifReach("end")
 }
